@@ -45,6 +45,11 @@ Tie to the current source, every run:
       (c3) the 2-argument wrapper must agree with the 3-argument form on every case;
       (c4) per-class flip counts of the deterministic `fixed-*` blocks are pinned (PINNED below): a count
            above its pin is a violation even when the class itself is an open known finding;
+      (c5) in the seed-dependent blocks no class may exceed 2x its largest pinned count; the share of robust
+           exact answers must be >= 0.5 (the eta filter must not empty the comparison); reach is obliged per arm
+           at IEEE level (36 counters evaluated by the driver at Float/Float32, each >= 1000);
+      blocks also cover `face - pos` overflowing on every axis and side, and MID-RANGE magnitudes 1e5..2e15 with
+      unit-order directions (`fixed-mid`);
   (d) guard lattice at a SMALL TMAX: the real templates instantiated at a wrapper scalar `Small` with
       numeric_limits<Small>::max() == 4, directions {0,+-1/8,+-1/2,+-1,+-2}^3 (zero direction included), dyadic
       origins/boxes of magnitude <= 6: all arithmetic exact, all guard-fail arms reached (hit counts obliged),
@@ -426,9 +431,12 @@ def run_sweep(chk, binary):
     for ft, name in (("d", "double"), ("f", "float")):
         rc, blocks, rc2, out = results[ft]
         stats, counts, flips, bcounts, tiebad = {}, {}, [], {}, []
+        arms_line = []
         for l in out.split("\n"):
             ws = l.split(" ")
-            if ws[0] == "count" and len(ws) == 3:
+            if ws[0] == "arms":
+                arms_line = [int(w) for w in ws[1:]]
+            elif ws[0] == "count" and len(ws) == 3:
                 counts[ws[1]] = int(ws[2])
             elif ws[0] == "blockcount" and len(ws) == 4:
                 bcounts.setdefault(ws[1].split(":", 1)[1], {})[ws[2]] = int(ws[3])
@@ -458,10 +466,31 @@ def run_sweep(chk, binary):
         mt = "Float32" if ft == "f" else "Float"
         chk.oblige("corr:sweep:model@%s=impl(%s):bit-for-bit(results+points-when-true,all guard arms)" % (mt, name),
                    "correspondence", oktie, None if oktie else {"chunks": stats.get("tieChunks"), "bad": stats.get("tieBad")})
-        # the guard-fail arms of the model are reached by this tie (hit counts)
-        okarms = all(stats.get(k, 0) > 0 for k in ("feGuardInside", "feGuardOutside", "isFrontSubst", "isBackSkip"))
-        chk.oblige("reach:sweep:%s:guard-fail-arms(fe fall-through, fe return-false, is front:=TMAX, is back-skip)" % name,
-                   "reach", okarms, {k: stats.get(k, 0) for k in ("feGuardInside", "feGuardOutside", "isFrontSubst", "isBackSkip")})
+        # the guard-fail arms of the model are reached by this tie: PER ARM (axis x sign x kind) at IEEE level, the arm
+        # classification being evaluated by the driver at Float/Float32 with the model's own operations; plus, per axis and
+        # sign, blocks entered with a NON-FINITE `face - pos`.  Each count must reach SWEEP_ARM_MIN (one case is not enough).
+        armv = arms_line
+        okarms = len(armv) == len(SWEEP_ARM_NAMES) and all(v >= SWEEP_ARM_MIN for v in armv)
+        chk.oblige("reach:sweep:%s:each-of-36-arms>=%d(18 guard-fail arms per axis/sign,|dir|>1-alone,dir>0-fallback,"
+                   "non-finite face-pos per axis/sign)" % (name, SWEEP_ARM_MIN), "reach", okarms,
+                   dict(zip(SWEEP_ARM_NAMES, armv)) if armv else "no arms line")
+        if not okarms:
+            low = [n for n, v in zip(SWEEP_ARM_NAMES, armv) if v < SWEEP_ARM_MIN]
+            chk.fail("reach:sweep:%s" % name, "sweep-reach:%s:%s" % (name, low[0] if low else "no-arms-line"),
+                     "guard sweep no longer reaches arm(s) %s at least %d times" % (", ".join(low[:6]), SWEEP_ARM_MIN),
+                     dict(zip(SWEEP_ARM_NAMES, armv)), False)
+        # the eta-robustness filter decides which exact answers are compared: its share must not collapse
+        eta = "1e-9" if ft == "d" else "1e-4"
+        shl = stats.get("robustLine", 0) / max(1, stats["cases"])
+        shr = stats.get("robustRay", 0) / max(1, stats["cases"])
+        okshare = shl >= ROBUST_SHARE_MIN and shr >= ROBUST_SHARE_MIN
+        chk.oblige("sweep:%s:robust-share(eta=%s)>=%.2f(line,ray)" % (name, eta, ROBUST_SHARE_MIN), "residue", okshare,
+                   {"line": round(shl, 4), "ray": round(shr, 4), "cases": stats["cases"]})
+        if not okshare:
+            chk.fail("sweep:%s:robust-share" % name, "guard-sweep:robust-share:" + name,
+                     "only %.3f / %.3f of the sweep's exact line / ray answers are robust under eta=%s erosion (minimum %.2f): the "
+                     "hit/miss comparison has lost its domain" % (shl, shr, eta, ROBUST_SHARE_MIN),
+                     {"robustLine": stats.get("robustLine"), "robustRay": stats.get("robustRay"), "cases": stats["cases"]}, False)
         chk.count(stats["cases"], stats.get("casesWithGuardFail", 0))
         if tiebad:
             tag, blk, chunk = tiebad[0]
@@ -555,6 +584,24 @@ def run_sweep(chk, binary):
                      "deterministic sweep block %s (%s): class %s has %d cases, pinned %d - the behaviour changed inside a recorded class"
                      % (b, name, cat, got, pin), rep, bool(ex))
 
+        # ---- (c5) seed-dependent blocks: no class may exceed SEEDED_CEILING_FACTOR x its largest pinned count in a
+        # deterministic block (a class that is an open known finding must not grow freely where nothing is pinned)
+        ceil_of = {}
+        for b, cs in pins.items():
+            for cat, n in cs.items():
+                ceil_of[cat] = max(ceil_of.get(cat, 0), int(math.ceil(SEEDED_CEILING_FACTOR * n)))
+        over = [(b, cat, ceil_of.get(cat, 0), n) for b, cs in sorted(bcounts.items()) if not b.startswith("fixed-")
+                for cat, n in sorted(cs.items()) if n > ceil_of.get(cat, 0)]
+        chk.oblige("sweep:%s:seeded-blocks:no-class-above-%gx-its-largest-pinned-count" % (name, SEEDED_CEILING_FACTOR), "residue",
+                   bool(pins) and not over, None if (pins and not over) else {"over": over[:8]})
+        chk.extra.setdefault("guard_sweep_seeded_block_counts", {})[name] = {b: c for b, c in bcounts.items() if not b.startswith("fixed-")}
+        for b, cat, ce, got in over[:4]:
+            ex = [l for l in flips if l.split(" ")[1] == cat and l.split(" ")[2].endswith(":" + b)]
+            rep = flip_replay(binary, ex[0])[1] if ex else {}
+            rep.update({"block": b, "class": cat, "ceiling": ce, "count_now": got})
+            chk.fail("sweep:%s:seeded-blocks" % name, "ceiling:%s:%s:%s" % (name, b, cat.replace("findEntryAndExitPoints", "fe").replace("intersects", "is").replace("reported-points:", "pts:")),
+                     "seed-dependent sweep block %s (%s): class %s has %d cases, ceiling %d" % (b, name, cat, got, ce), rep, bool(ex))
+
 
 # (d) guard lattice at a small TMAX
 SMALL_T = "4"
@@ -562,10 +609,16 @@ SMALL_BOXES = "0,0,0,1,1,1;1,5,-1,2,6,1;0,-1,-1,4,1,1;6,-1,-1,6,1,1;-2,0,-4,-1,2
 SMALL_POS_QUICK = "-6,-1,0,1/2,2,5"
 SMALL_POS_THOROUGH = "-6,-2,-1,0,1/2,1,2,5"
 SMALL_DIRS = "0,1/8,-1/8,1/2,-1/2,1,-1,2,-2"
+SMALL_ARM_MIN = 500         # clean tree: smallest of the 24 counts is 1,610 (quick)
+SWEEP_ARM_MIN = 1000        # clean tree: smallest of the 36 counts is 2,040 (deterministic blocks alone)
+ROBUST_SHARE_MIN = 0.5      # clean tree: 0.62 .. 0.68
+SEEDED_CEILING_FACTOR = 2.0
 ARM_NAMES = (["fe:%s:dir<0-fallback:%s" % (a, o) for a in "xyz" for o in ("return-false", "fall-through")] +
              ["is:%s:%s:%s" % (a, sg, w) for a in "xyz" for sg in ("dir>0", "dir<0") for w in ("back-update-skipped", "front:=TMAX")] +
              ["fe:%s:guard-true-through-|dir|>1-alone" % a for a in "xyz"] +
              ["fe:%s:dir>0-fallback" % a for a in "xyz"])
+SWEEP_ARM_NAMES = (ARM_NAMES + ["fe:%s:%s:non-finite-face-minus-pos" % (a, sg) for a in "xyz" for sg in ("dir>0", "dir<0")] +
+                   ["is:%s:%s:non-finite-face-minus-pos" % (a, sg) for a in "xyz" for sg in ("dir>0", "dir<0")])
 
 
 def run_small(chk, binary, pv, name):
@@ -577,7 +630,7 @@ def run_small(chk, binary, pv, name):
     np_, nd_ = len(pv.split(",")), len(SMALL_DIRS.split(","))
     nblk = len(SMALL_BOXES.split(";")) * np_
     per = np_ * np_ * nd_ ** 3
-    okshape = len(impl) == nblk and len(mod) == nblk and all(len(y) == 32 for y in mod)
+    okshape = len(impl) == nblk and len(mod) == nblk and all(len(y) == 8 + 36 for y in mod)
     bad, nfe, nis, ng, nw, nwc, nu = [], 0, 0, 0, 0, 0, 0
     arms = [0] * 24
     if okshape:
@@ -589,8 +642,8 @@ def run_small(chk, binary, pv, name):
     ncases = nblk * per
     chk.oblige("corr:%s:model(Rat,T=4)=impl(Small,max()=4):results+points-when-true:exact" % name, "correspondence",
                okshape and not bad)
-    okarms = okshape and all(v > 0 for v in arms)
-    chk.oblige("reach:%s:all-18-guard-fail-arms(+|dir|>1-alone,+dir>0-fallback)" % name, "reach", okarms,
+    okarms = okshape and all(v >= SMALL_ARM_MIN for v in arms)
+    chk.oblige("reach:%s:each-of-18-guard-fail-arms(+|dir|>1-alone,+dir>0-fallback)>=%d" % (name, SMALL_ARM_MIN), "reach", okarms,
                dict(zip(ARM_NAMES, arms)) if okshape else None)
     chk.oblige("corr:%s:model=guardpath-oracle(executable form of *_guardpath)" % name, "correspondence", okshape and ng == 0)
     chk.oblige("corr:%s:model=geometric-oracle-within-|t|<=T(executable form of *_iff_window)" % name, "correspondence",
@@ -656,7 +709,10 @@ def run(chk):
                    "real templates are instantiated for the small-T guard lattice",
                    "g++ -O1 -ffp-contract=off and the CPU executing the harness"]
     chk.assumptions = ["theorems are about exact arithmetic over an ordered field with TMAX a parameter; rounding is measured "
-                       "(guard sweep), not proved", "Spec/RayBoxSpec.lean states closed-box membership and the guards correctly"]
+                       "(guard sweep, on-ray residue), not proved", "Spec/RayBoxSpec.lean states closed-box membership and the guards correctly",
+                       "the eta-erosion robustness filter of the sweep (eta 1e-9 double / 1e-4 float) selects which exact answers are "
+                       "compared with the code's hit/miss; its share is obliged >= 0.5; the bit-for-bit model tie does not depend on it",
+                       "no executed case has |coordinates| between 2e15 and 1e30 or a scalar type other than float, double, Small"]
     chk.rule = ("exhaustive lattice: boxes = (per-axis (min,max) pairs incl. flat and inverted)^3, origins [-2,2]^3, directions "
                 "[-2,2]^3 minus 0, translated/scaled by a VERIF_SEED-chosen integer offset and power of two; non-trivial = results "
                 "that are true.  Non-dyadic lattice: directions {0,+-1,+-3,+-5,+-7}^3 minus 0, integer origins/boxes, deterministic; "
@@ -664,7 +720,8 @@ def run(chk):
                 "Small-T lattice: real templates at a scalar with max() = 4, 6 boxes x origins {-6..5}^3 x directions {0,+-1/8,+-1/2,+-1,+-2}^3, "
                 "exact; non-trivial = true results; all 18 guard-fail arms have obliged hit counts.  Guard sweep: 12^3 extreme directions "
                 "(+0 and -0 components, the zero directions included) x <=125 origins x boxes; non-trivial = robust exact answers (oracle part), cases with a failing "
-                "guard (model@Float tie part); per-class counts of the deterministic blocks pinned")
+                "guard (model@Float tie part); per-class counts of the deterministic blocks pinned, 2x ceiling on seeded blocks; one mid-magnitude "
+                "block (1e5..2e15, unit-order directions)")
     okd, out = build_driver()
     chk.oblige("build:drv_raybox", "build", okd, None if okd else out[-800:])
     ok, binary, o = lib.cxx_build("raybox_corr", ["corr/raybox_corr.cpp"])
@@ -789,6 +846,10 @@ PINNED = {
    "reported-points:findEntryAndExitPoints:exit-never-written:face-minus-pos-overflows": 19008,
    "reported-points:findEntryAndExitPoints:exit-never-written:zero-direction": 216
   },
+  "fixed-mid": {
+   "reported-points:findEntryAndExitPoints:entry-never-written:zero-direction": 27,
+   "reported-points:findEntryAndExitPoints:exit-never-written:zero-direction": 27
+  },
   "fixed-offcentre": {
    "findEntryAndExitPoints:hit-to-miss:all-components-fail-guard:t-gt-TMAX": 112,
    "intersects:miss-to-hit:all-components-fail-guard": 240,
@@ -806,6 +867,56 @@ PINNED = {
    "reported-points:findEntryAndExitPoints:exit-never-written:zero-direction": 216
   },
   "fixed-overflow": {
+   "findEntryAndExitPoints:hit-to-miss:all-components-fail-guard:t-gt-TMAX": 16,
+   "findEntryAndExitPoints:hit-to-miss:face-minus-pos-overflows": 196,
+   "findEntryAndExitPoints:miss-to-hit:face-minus-pos-overflows": 8,
+   "intersects:hit-to-miss:face-minus-pos-overflows": 58,
+   "intersects:miss-to-hit:all-components-fail-guard": 32,
+   "intersects:miss-to-hit:face-minus-pos-overflows": 52,
+   "reported-points:findEntryAndExitPoints:entry-never-written:face-minus-pos-overflows": 32,
+   "reported-points:findEntryAndExitPoints:exit-never-written:face-minus-pos-overflows": 32
+  },
+  "fixed-overflow-neg-x": {
+   "findEntryAndExitPoints:hit-to-miss:all-components-fail-guard:t-gt-TMAX": 16,
+   "findEntryAndExitPoints:hit-to-miss:face-minus-pos-overflows": 196,
+   "findEntryAndExitPoints:miss-to-hit:face-minus-pos-overflows": 8,
+   "intersects:hit-to-miss:face-minus-pos-overflows": 58,
+   "intersects:miss-to-hit:all-components-fail-guard": 32,
+   "intersects:miss-to-hit:face-minus-pos-overflows": 52,
+   "reported-points:findEntryAndExitPoints:entry-never-written:face-minus-pos-overflows": 32,
+   "reported-points:findEntryAndExitPoints:exit-never-written:face-minus-pos-overflows": 32
+  },
+  "fixed-overflow-neg-y": {
+   "findEntryAndExitPoints:hit-to-miss:all-components-fail-guard:t-gt-TMAX": 16,
+   "findEntryAndExitPoints:hit-to-miss:face-minus-pos-overflows": 196,
+   "findEntryAndExitPoints:miss-to-hit:face-minus-pos-overflows": 8,
+   "intersects:hit-to-miss:face-minus-pos-overflows": 58,
+   "intersects:miss-to-hit:all-components-fail-guard": 32,
+   "intersects:miss-to-hit:face-minus-pos-overflows": 52,
+   "reported-points:findEntryAndExitPoints:entry-never-written:face-minus-pos-overflows": 32,
+   "reported-points:findEntryAndExitPoints:exit-never-written:face-minus-pos-overflows": 32
+  },
+  "fixed-overflow-neg-z": {
+   "findEntryAndExitPoints:hit-to-miss:all-components-fail-guard:t-gt-TMAX": 16,
+   "findEntryAndExitPoints:hit-to-miss:face-minus-pos-overflows": 196,
+   "findEntryAndExitPoints:miss-to-hit:face-minus-pos-overflows": 8,
+   "intersects:hit-to-miss:face-minus-pos-overflows": 58,
+   "intersects:miss-to-hit:all-components-fail-guard": 32,
+   "intersects:miss-to-hit:face-minus-pos-overflows": 52,
+   "reported-points:findEntryAndExitPoints:entry-never-written:face-minus-pos-overflows": 32,
+   "reported-points:findEntryAndExitPoints:exit-never-written:face-minus-pos-overflows": 32
+  },
+  "fixed-overflow-y": {
+   "findEntryAndExitPoints:hit-to-miss:all-components-fail-guard:t-gt-TMAX": 16,
+   "findEntryAndExitPoints:hit-to-miss:face-minus-pos-overflows": 196,
+   "findEntryAndExitPoints:miss-to-hit:face-minus-pos-overflows": 8,
+   "intersects:hit-to-miss:face-minus-pos-overflows": 58,
+   "intersects:miss-to-hit:all-components-fail-guard": 32,
+   "intersects:miss-to-hit:face-minus-pos-overflows": 52,
+   "reported-points:findEntryAndExitPoints:entry-never-written:face-minus-pos-overflows": 32,
+   "reported-points:findEntryAndExitPoints:exit-never-written:face-minus-pos-overflows": 32
+  },
+  "fixed-overflow-z": {
    "findEntryAndExitPoints:hit-to-miss:all-components-fail-guard:t-gt-TMAX": 16,
    "findEntryAndExitPoints:hit-to-miss:face-minus-pos-overflows": 196,
    "findEntryAndExitPoints:miss-to-hit:face-minus-pos-overflows": 8,
@@ -847,6 +958,10 @@ PINNED = {
    "reported-points:findEntryAndExitPoints:exit-never-written:face-minus-pos-overflows": 19008,
    "reported-points:findEntryAndExitPoints:exit-never-written:zero-direction": 216
   },
+  "fixed-mid": {
+   "reported-points:findEntryAndExitPoints:entry-never-written:zero-direction": 27,
+   "reported-points:findEntryAndExitPoints:exit-never-written:zero-direction": 27
+  },
   "fixed-offcentre": {
    "findEntryAndExitPoints:hit-to-miss:all-components-fail-guard:t-gt-TMAX": 112,
    "intersects:miss-to-hit:all-components-fail-guard": 240,
@@ -864,6 +979,56 @@ PINNED = {
    "reported-points:findEntryAndExitPoints:exit-never-written:zero-direction": 216
   },
   "fixed-overflow": {
+   "findEntryAndExitPoints:hit-to-miss:all-components-fail-guard:t-gt-TMAX": 16,
+   "findEntryAndExitPoints:hit-to-miss:face-minus-pos-overflows": 236,
+   "findEntryAndExitPoints:miss-to-hit:face-minus-pos-overflows": 16,
+   "intersects:hit-to-miss:face-minus-pos-overflows": 78,
+   "intersects:miss-to-hit:all-components-fail-guard": 32,
+   "intersects:miss-to-hit:face-minus-pos-overflows": 56,
+   "reported-points:findEntryAndExitPoints:entry-never-written:face-minus-pos-overflows": 32,
+   "reported-points:findEntryAndExitPoints:exit-never-written:face-minus-pos-overflows": 32
+  },
+  "fixed-overflow-neg-x": {
+   "findEntryAndExitPoints:hit-to-miss:all-components-fail-guard:t-gt-TMAX": 16,
+   "findEntryAndExitPoints:hit-to-miss:face-minus-pos-overflows": 236,
+   "findEntryAndExitPoints:miss-to-hit:face-minus-pos-overflows": 16,
+   "intersects:hit-to-miss:face-minus-pos-overflows": 78,
+   "intersects:miss-to-hit:all-components-fail-guard": 32,
+   "intersects:miss-to-hit:face-minus-pos-overflows": 56,
+   "reported-points:findEntryAndExitPoints:entry-never-written:face-minus-pos-overflows": 32,
+   "reported-points:findEntryAndExitPoints:exit-never-written:face-minus-pos-overflows": 32
+  },
+  "fixed-overflow-neg-y": {
+   "findEntryAndExitPoints:hit-to-miss:all-components-fail-guard:t-gt-TMAX": 16,
+   "findEntryAndExitPoints:hit-to-miss:face-minus-pos-overflows": 236,
+   "findEntryAndExitPoints:miss-to-hit:face-minus-pos-overflows": 16,
+   "intersects:hit-to-miss:face-minus-pos-overflows": 78,
+   "intersects:miss-to-hit:all-components-fail-guard": 32,
+   "intersects:miss-to-hit:face-minus-pos-overflows": 56,
+   "reported-points:findEntryAndExitPoints:entry-never-written:face-minus-pos-overflows": 32,
+   "reported-points:findEntryAndExitPoints:exit-never-written:face-minus-pos-overflows": 32
+  },
+  "fixed-overflow-neg-z": {
+   "findEntryAndExitPoints:hit-to-miss:all-components-fail-guard:t-gt-TMAX": 16,
+   "findEntryAndExitPoints:hit-to-miss:face-minus-pos-overflows": 236,
+   "findEntryAndExitPoints:miss-to-hit:face-minus-pos-overflows": 16,
+   "intersects:hit-to-miss:face-minus-pos-overflows": 78,
+   "intersects:miss-to-hit:all-components-fail-guard": 32,
+   "intersects:miss-to-hit:face-minus-pos-overflows": 56,
+   "reported-points:findEntryAndExitPoints:entry-never-written:face-minus-pos-overflows": 32,
+   "reported-points:findEntryAndExitPoints:exit-never-written:face-minus-pos-overflows": 32
+  },
+  "fixed-overflow-y": {
+   "findEntryAndExitPoints:hit-to-miss:all-components-fail-guard:t-gt-TMAX": 16,
+   "findEntryAndExitPoints:hit-to-miss:face-minus-pos-overflows": 236,
+   "findEntryAndExitPoints:miss-to-hit:face-minus-pos-overflows": 16,
+   "intersects:hit-to-miss:face-minus-pos-overflows": 78,
+   "intersects:miss-to-hit:all-components-fail-guard": 32,
+   "intersects:miss-to-hit:face-minus-pos-overflows": 56,
+   "reported-points:findEntryAndExitPoints:entry-never-written:face-minus-pos-overflows": 32,
+   "reported-points:findEntryAndExitPoints:exit-never-written:face-minus-pos-overflows": 32
+  },
+  "fixed-overflow-z": {
    "findEntryAndExitPoints:hit-to-miss:all-components-fail-guard:t-gt-TMAX": 16,
    "findEntryAndExitPoints:hit-to-miss:face-minus-pos-overflows": 236,
    "findEntryAndExitPoints:miss-to-hit:face-minus-pos-overflows": 16,
